@@ -167,7 +167,8 @@ class Sphere(Shape3D):
         q = np.atleast_2d(q)
         form_factor = np.empty(q.shape[0], dtype=np.complex128)
         q_sqs = np.sum(q * q, axis=-1)
-        zero_q = np.isclose(q_sqs, 0)
+        # Decide "q is zero" relative to the size of the sphere.
+        zero_q = np.isclose(q_sqs * self.radius**2, 0)
         form_factor[zero_q] = self.volume
         # Two notes are in order for the formula below:
         #   - np.sinc(x) gives sin(pi*x)/(pi*x)
